@@ -4,9 +4,11 @@
    valid row pointer and every D — in particular when constrained rows store no entry (finding F6 on the
    pinned tree: there this lemma does not compile). *)
 From Coq Require Import List ZArith.
-Require Import Base.C05_Np Model.C05_BC Proofs.C05_IdxProofs Proofs.C05_CondenseProofs Proofs.C05_EnforceProofs
+Require Import Base.C05_Np Model.C05_BC Model.C05_MPC Proofs.C05_IdxProofs Proofs.C05_CondenseProofs Proofs.C05_EnforceProofs
                Proofs.C05_ChainProofs Gen.C05Gen.
 
+Lemma gen_flatten_dict_is_model : forall views, gen_flatten_dict views = flatten_dofs views.
+Proof. reflexivity. Qed.
 Lemma gen_init_bc_is_model : forall n I D, gen_init_bc n I D = init_bc n I D.
 Proof. reflexivity. Qed.
 Lemma gen_condense_A_is_model : forall R (A : list (list (nat * R))) I, gen_condense_A A I = condense_A A I.
@@ -28,6 +30,20 @@ Proof. split; reflexivity. Qed.
 Lemma gen_penalize_matrix_is_model : forall R (o : ring_ops R) M D w, gen_penalize_matrix o M D w = penalize_matrix o M D w.
 Proof. reflexivity. Qed.
 Lemma gen_penalize_rhs_is_model : forall R (o : ring_ops R) b x D w, gen_penalize_rhs o b x D w = penalize_rhs o b x D w.
+Proof. reflexivity. Qed.
+
+(* mpc *)
+Lemma gen_mpc_U_is_model : forall n M S, gen_mpc_U n M S = mpc_U n M S.
+Proof. reflexivity. Qed.
+Lemma gen_mpc_B_is_model : forall R (o : ring_ops R) A T U M S, gen_mpc_B o A T U M S = mpc_B o A T U M S.
+Proof. reflexivity. Qed.
+Lemma gen_mpc_y_is_model : forall R (o : ring_ops R) A b g U M S, gen_mpc_y o A b g U M S = mpc_y o A b g U M S.
+Proof. reflexivity. Qed.
+Lemma gen_mpc_perm_is_model : forall U M S, gen_mpc_perm U M S = mpc_perm U M S.
+Proof. reflexivity. Qed.
+Lemma gen_mpc_expand_is_model : forall R (o : ring_ops R) T g U x, gen_mpc_expand o T g U x = mpc_expand o T g (length U) x.
+Proof. reflexivity. Qed.
+Lemma gen_expand_tuple_is_model : forall R (o : ring_ops R) x perm f z, gen_expand_tuple o x perm f z = expand_tuple o x perm f z.
 Proof. reflexivity. Qed.
 
 (* the index arithmetic *)
